@@ -39,7 +39,7 @@ EvCmp == /\ Ev("cmp")
                 s == Compare(A, B)
                 c == Candidate(A, B)
             IN /\ Expect(AllEq(E.rs, s) /\ AllEq(E.rev, s) /\ AllEq(E.cand, c) /\ AllEq(E.candrev, c)
-                         /\ "str" \in DOMAIN E.rs /\ "target" \in DOMAIN E.rs,
+                         /\ "long" \in DOMAIN E.rs /\ "target" \in DOMAIN E.rs,
                          <<l, "cmp", s, c>>)
                (* the laws of C10, re-checked on the recorded values themselves *)
                /\ Expect(\A f \in DOMAIN E.rs : E.rs[f] \in 0..100, <<l, "cmp-range">>)
